@@ -114,7 +114,8 @@ Theorem C11_tie_source_shape :
      "s.sendRequestWithTimeout(ctx, req, s.nextRequestID(), active, authToken, timeout, h)"; "s.nextRequestID()"]%string /\
   src_sync_waitIfLockThen = ["c.lockMu.Lock()"; "c.lockCnd.Wait()"; "f()"; "c.lockMu.Unlock()"]%string /\
   firstn 2 src_sync_sendRequestWithTimeout = ["s.sendAsyncWithTimeout(ctx, req, reqID, instance, authToken, respRequired, timeout)"; "s.pendingReq.Done()"]%string /\
-  firstn 2 src_sync_open = ["s.nextRequestID()"; "s.pendingReq.Add(1)"]%string /\
+  firstn 7 src_sync_open = ["s.rcvLocker.unlock()"; "s.openingMu.Lock()"; "s.openingMu.Unlock()"; "s.nextRequestID()";
+     "atomic.StoreUint32(&s.openingReqID, reqID)"; "atomic.StoreUint32(&s.openingReqID, 0)"; "s.pendingReq.Add(1)"]%string /\
   firstn 3 src_sync_sendAsyncWithTimeout = ["instance.Lock()"; "instance.Unlock()"; "instance.newRequestMessage(req, reqID, authToken, timeout)"]%string /\
   firstn 3 src_sync_sendResponseWithContext = ["s.getActiveChannelInstance()"; "instance.Lock()"; "instance.Unlock()"]%string /\
   src_open_copies_sequence_number = true /\ src_open_hands_sequence_number_back = true.
